@@ -473,6 +473,14 @@ func (p *Parser) parsePathItem() []token.Token {
 				return list
 			}
 
+			// "1abc" is scanned as two tokens and joined again; with a blank in between ("0 name")
+			// the joined text "0name" is not what the source says and cannot be scanned again
+			if p.peekTok.Line() != p.curTok.Line() ||
+				p.peekTok.Position.Column != p.curTok.Position.Column+len([]rune(p.curTok.Text)) {
+				p.expectPeekToken(token.QUO, token.LPAREN, token.Returns, token.SEMICOLON)
+				return nil
+			}
+
 			if !p.advanceIfPeekTokenIs(token.IDENT) {
 				return nil
 			}
